@@ -913,3 +913,19 @@ def shrink(case, still_fails):
             except Exception:
                 pass
     return cur
+
+
+# ------------------------------------------------------------------ translator tie (added by the lead)
+TIE_TARGETS = ["props/C08_tie.vo"]
+
+
+def regen(chk):
+    """regenerate gen/Gen_controllers.v from the current linear.py / relative_supply.py"""
+    import os
+    from . import common
+    from py2coq import units
+    res = units.regen(common.REPO, os.path.join(common.COQDIR, "gen"), ["Gen_controllers.v"])
+    chk.coverage["translator"] = res
+    bad = [v for v in res.values() if v != "ok"]
+    if bad:
+        raise RuntimeError(bad[0])
